@@ -16,12 +16,12 @@ PLAN = {
         note="wrapped command methods not yet under contract",
     ),
     "C12": dict(
-        verus=["eeprom_range"], kani=[], level="proof",
+        verus=["eeprom_range", "subdevice_eeprom"], kani=[], level="proof",
         claim="EepromRange::{new,skip_ahead_bytes,read_byte,read} proved against the provider's ghost memory for every position, window, buffer length and chunk size (Verus, unbounded loop invariant)",
         note="provider (hardware) contract assumed: read_chunk(w) returns mem[2w..2w+k], k in {4,8}",
     ),
     "C13": dict(
-        verus=["eeprom_range"], kani=[], level="proof",
+        verus=["eeprom_range", "subdevice_eeprom"], kani=[], level="proof",
         claim="no overflow / out-of-bounds / panic and termination of the EepromRange functions for arbitrary memory contents (Verus automatic obligations)",
         note="provider contract assumed; category walk not yet under contract",
     ),
